@@ -778,7 +778,8 @@ spif_dlinked_list_insert(spif_dlinked_list_t self, spif_obj_t obj)
         item->next = self->head;
         self->head->prev = item;
         self->head = item;
-    } else if (SPIF_CMP_IS_GREATER(spif_dlinked_list_item_comp(item, self->tail))) {
+    } else if (!SPIF_CMP_IS_LESS(spif_dlinked_list_item_comp(item, self->tail))) {
+        /* Not smaller than the last item, so it goes to the end. */
         item->prev = self->tail;
         self->tail->next = item;
         self->tail = item;
